@@ -1,6 +1,6 @@
 (* Interp.v -- the executable reading of a correspondence case: the same op vocabulary the Rust
    harness interprets (harness/src/bin/*.rs), run on the model.  Extracted to OCaml (Extract.v). *)
-From BM Require Import BlockModes Plumbing Toy.
+From BM Require Import BlockModes Plumbing Toy Ctr Belt Stream Cts.
 
 (* ---- block-mode objects --------------------------------------------------------------------- *)
 Inductive bkind := KCbcE | KCbcD | KPcbcE | KPcbcD | KIgeE | KIgeD | KCfbE | KCfbD | KCfb8E | KCfb8D | KOfbE | KOfbD.
@@ -65,14 +65,62 @@ Inductive place := PIp (d : darg) | PB2b (d junk : darg).
 Inductive newhow := HNew | HInner | HSlices | HInnerSlice.
 
 Inductive res :=
-| RBytes (l : list N) | RErr | RPanic | ROk | RNum (n : N) | RNone | RState (iv : list N) (pos : nat)
+| RBytes (l : list N) | RErr | RPanic | ROk | RNum (n : Z) | RNone | RState (iv : list N) (pos : nat)
 | RUnsupported.
+
+(* ---- keystream cores: the six CTR flavours, OFB, BelT-CTR ---- *)
+Inductive skind := SCtr (cs : nat) (be : bool) | SOfb | SBelt.
+Inductive cstate := CCtr (cn : ctrnonce) | COfb (iv : block) | CBelt (st : beltst).
+
+Definition kscore (C : cipher) (k : skind) : score cstate :=
+  match k with
+  | SCtr cs be =>
+      let F := mkflavor cs be in
+      mkscore (c_bs C) (c_w C)
+        (fun s => match s with CCtr cn => let '(cn', b) := ctr_gen F C cn in (CCtr cn', b) | _ => (s, []) end)
+        (fun s => match s with CCtr cn => let '(cn', b) := ctr_gen_par F C cn in (CCtr cn', b) | _ => (s, []) end)
+        (fun s => match s with CCtr cn => ctr_remaining F cn | _ => None end)
+        (fun s => match s with CCtr cn => as_backend cn | _ => 0%N end)
+        (fun s p => match s with CCtr cn => CCtr (set_from_backend cn p) | _ => s end)
+        (8 * cs)
+  | SOfb =>
+      mkscore (c_bs C) 1
+        (fun s => match s with COfb iv => let '(iv', b) := ofb_gen C iv in (COfb iv', b) | _ => (s, []) end)
+        (fun s => (s, []))
+        (fun _ => None) (fun _ => 0%N) (fun s _ => s) 0
+  | SBelt =>
+      mkscore (c_bs C) (c_w C)
+        (fun s => match s with CBelt st => let '(st', b) := belt_gen C st in (CBelt st', b) | _ => (s, []) end)
+        (fun s => match s with CBelt st => let '(st', b) := belt_gen_par C st in (CBelt st', b) | _ => (s, []) end)
+        (fun s => match s with CBelt st => belt_remaining st | _ => None end)
+        (fun s => match s with CBelt st => belt_get_pos st | _ => 0%N end)
+        (fun s p => match s with CBelt st => CBelt (belt_set_pos st p) | _ => s end)
+        128
+  end.
+
+Definition core_init (C : cipher) (k : skind) (iv : block) : cstate :=
+  match k with
+  | SCtr cs be => CCtr (ctr_init (mkflavor cs be) iv)
+  | SOfb => COfb (ofb_init iv)
+  | SBelt => CBelt (belt_init C iv)
+  end.
+
+Definition core_iv_state (C : cipher) (k : skind) (s : cstate) : block :=
+  match k, s with
+  | SCtr cs be, CCtr cn => ctr_iv_state (mkflavor cs be) cn
+  | SOfb, COfb iv => ofb_iv_state iv
+  | SBelt, CBelt st => belt_iv_state C st
+  | _, _ => []
+  end.
 
 Inductive obj :=
 | OBlock (k : bkind) (key : list N) (st : bstate)
-| OBuf (enc : bool) (key : list N) (iv : block) (pos : nat).
+| OBuf (enc : bool) (key : list N) (iv : block) (pos : nat)
+| OCore (k : skind) (key : list N) (st : cstate)
+| OWrap (k : skind) (key : list N) (wst : wrapper cstate)
+| OCts (v : cts_variant) (key : list N) (iv : block).
 
-Inductive okind := KBlock (k : bkind) | KBuf (enc : bool).
+Inductive okind := KBlock (k : bkind) | KBuf (enc : bool) | KCore (k : skind) | KWrap (k : skind) | KCts (v : cts_variant).
 
 Inductive op :=
 | OpNew (id : nat) (k : okind) (how : newhow) (key iv : darg)
@@ -87,6 +135,18 @@ Inductive op :=
 | OpIvState (id : nat)
 | OpBuf (id : nat) (d : darg)
 | OpGetState (id : nat)
+| OpApply (id : nat) (p : place)
+| OpSeek (id : nat) (t : seeknum) (p : Z)
+| OpPos (id : nat) (t : seeknum)
+| OpKsBlocks (id : nat) (n : nat)
+| OpApplyBlks (id : nat) (p : place)
+| OpApplyBlk (id : nat) (p : place)
+| OpRemaining (id : nat)
+| OpGetPos (id : nat)
+| OpSetPos (id : nat) (p : N)
+| OpWrap (id newid : nat)
+| OpCore (id newid : nat)
+| OpCts (id : nat) (enc : bool) (p : place)
 | OpCat (ds : list darg)
 | OpSub (d : darg) (off len : nat)
 | OpOther.                                    (* ops that only the implementation interprets *)
@@ -115,7 +175,8 @@ Section Run.
     match o with
     | OpNew id k how key iv =>
         let key := get_data rs key in let iv := get_data rs iv in
-        let ivlen := match k with KBlock bk => bm_ivlen (cph key) bk | KBuf _ => bs end in
+        let ivlen := match k with KBlock bk => bm_ivlen (cph key) bk
+                                | KCts (EcbCs1 | EcbCs2 | EcbCs3) => 0 | _ => bs end in
         if negb ((length key =? 8) && (length iv =? ivlen)) then
           (s, match how with HSlices => RErr
                            | HInnerSlice => if length key =? 8 then RErr else RUnsupported
@@ -124,6 +185,9 @@ Section Run.
           let ob := match k with
                     | KBlock bk => OBlock bk key (bm_init (cph key) bk iv)
                     | KBuf enc => let '(iv', p) := buf_init (cph key) iv in OBuf enc key iv' p
+                    | KCore sk => OCore sk key (core_init (cph key) sk iv)
+                    | KWrap sk => OWrap sk key (from_core (kscore (cph key) sk) (core_init (cph key) sk iv))
+                    | KCts v => OCts v key iv
                     end in
           (update s id ob, ROk)
     | OpFromState id enc key iv pos =>
@@ -136,7 +200,11 @@ Section Run.
         | None => (s, RUnsupported)
         end
     | OpClone id newid =>
-        match lookup s id with Some ob => (update s newid ob, ROk) | None => (s, RUnsupported) end
+        match lookup s id with
+        | Some (OCore SBelt _ _) | Some (OWrap SBelt _ _) => (s, RUnsupported)    (* not Clone *)
+        | Some ob => (update s newid ob, ROk)
+        | None => (s, RUnsupported)
+        end
     | OpDrop id => (remove_id s id, ROk)
     | OpBlk id p =>
         match lookup s id with
@@ -214,6 +282,8 @@ Section Run.
     | OpIvState id =>
         match lookup s id with
         | Some (OBlock k key st) => (s, RBytes (bm_iv_state (cph key) k st))
+        | Some (OCore k key st) => (s, RBytes (core_iv_state (cph key) k st))
+        | Some (OWrap k key wst) => (s, RBytes (core_iv_state (cph key) k (wr_core wst)))
         | _ => (s, RUnsupported)
         end
     | OpBuf id d =>
@@ -229,6 +299,120 @@ Section Run.
     | OpGetState id =>
         match lookup s id with
         | Some (OBuf enc key iv pos) => (s, RState iv pos)
+        | _ => (s, RUnsupported)
+        end
+    | OpApply id p =>
+        match lookup s id with
+        | Some (OWrap k key wst) =>
+            let K := kscore (cph key) k in
+            let r := match p with
+                     | PIp d => let d := get_data rs d in Some (try_apply K wst true d d)
+                     | PB2b d j => let d := get_data rs d in let j := get_data rs j in
+                                   if length d =? length j then Some (try_apply K wst false d j) else None
+                     end in
+            match r with
+            | None => (s, RErr)
+            | Some (Ok (wst', out)) => (update s id (OWrap k key wst'), RBytes out)
+            | Some Err => (s, RErr)
+            | Some Panic => (s, RPanic)
+            end
+        | _ => (s, RUnsupported)
+        end
+    | OpSeek id t p =>
+        match lookup s id with
+        | Some (OWrap k key wst) =>
+            match try_seek (kscore (cph key) k) t wst p with
+            | Ok wst' => (update s id (OWrap k key wst'), ROk)
+            | Err => (s, RErr)
+            | Panic => (s, RPanic)
+            end
+        | _ => (s, RUnsupported)
+        end
+    | OpPos id t =>
+        match lookup s id with
+        | Some (OWrap k key wst) => (s, of_outcome RNum (try_current_pos (kscore (cph key) k) t wst))
+        | _ => (s, RUnsupported)
+        end
+    | OpKsBlocks id n =>
+        match lookup s id with
+        | Some (OCore k key st) =>
+            let '(st', bl) := write_ks_blocks (kscore (cph key) k) n st in
+            (update s id (OCore k key st'), RBytes (concat bl))
+        | _ => (s, RUnsupported)
+        end
+    | OpApplyBlks id p =>
+        match lookup s id with
+        | Some (OCore k key st) =>
+            let K := kscore (cph key) k in
+            match p with
+            | PIp d => let d := get_data rs d in
+                       if negb (length d mod bs =? 0) then (s, RUnsupported) else
+                       let '(st', cs') := apply_ks_blocks K st (cells_of bs true d d) in
+                       (update s id (OCore k key st'), RBytes (outs_of cs'))
+            | PB2b d j => let d := get_data rs d in let j := get_data rs j in
+                       if negb ((length d mod bs =? 0) && (length d =? length j)) then (s, RUnsupported) else
+                       let '(st', cs') := apply_ks_blocks K st (cells_of bs false d j) in
+                       (update s id (OCore k key st'), RBytes (outs_of cs'))
+            end
+        | _ => (s, RUnsupported)
+        end
+    | OpApplyBlk id p =>
+        match lookup s id with
+        | Some (OCore k key st) =>
+            let K := kscore (cph key) k in
+            let mk := match p with
+                      | PIp d => let d := get_data rs d in if length d =? bs then Some (cell_ip d) else None
+                      | PB2b d j => let d := get_data rs d in let j := get_data rs j in
+                                    if (length d =? bs) && (length j =? bs) then Some (cell_b2b d j) else None
+                      end in
+            match mk with
+            | Some c => let '(st', c') := apply_ks_block K st c in (update s id (OCore k key st'), RBytes (cout c'))
+            | None => (s, RUnsupported)
+            end
+        | _ => (s, RUnsupported)
+        end
+    | OpRemaining id =>
+        match lookup s id with
+        | Some (OCore k key st) =>
+            (s, match sc_remaining (kscore (cph key) k) st with Some n => RNum (Z.of_N n) | None => RNone end)
+        | _ => (s, RUnsupported)
+        end
+    | OpGetPos id =>
+        match lookup s id with
+        | Some (OCore k key st) => (s, match k with SOfb => RUnsupported | _ => RNum (Z.of_N (sc_get_pos (kscore (cph key) k) st)) end)
+        | _ => (s, RUnsupported)
+        end
+    | OpSetPos id p =>
+        match lookup s id with
+        | Some (OCore k key st) =>
+            match k with SOfb => (s, RUnsupported)
+                       | _ => (update s id (OCore k key (sc_set_pos (kscore (cph key) k) st p)), ROk) end
+        | _ => (s, RUnsupported)
+        end
+    | OpWrap id newid =>
+        match lookup s id with
+        | Some (OCore k key st) =>      (* from_core consumes the core *)
+            (update (remove_id s id) newid (OWrap k key (from_core (kscore (cph key) k) st)), ROk)
+        | _ => (s, RUnsupported)
+        end
+    | OpCore id newid =>
+        match lookup s id with
+        | Some (OWrap SBelt _ _) => (s, RUnsupported)          (* BeltCtrCore is not Clone *)
+        | Some (OWrap k key wst) => (update s newid (OCore k key (wr_core wst)), ROk)
+        | _ => (s, RUnsupported)
+        end
+    | OpCts id enc p =>
+        match lookup s id with
+        | Some (OCts v key iv) =>
+            let m := match p with
+                     | PIp d => let d := get_data rs d in Some (mkmem true d d)
+                     | PB2b d j => let d := get_data rs d in let j := get_data rs j in
+                                   if length d =? length j then Some (mkmem false d j) else None
+                     end in
+            match m with
+            | None => (s, RErr)
+            | Some m => (s, of_outcome (fun m' => RBytes (m_out m')) (cts_run (cph key) v enc iv m))
+            end
         | _ => (s, RUnsupported)
         end
     | OpCat ds => (s, RBytes (concat (map (get_data rs) ds)))
